@@ -7,27 +7,47 @@
 (* of the execution, and every other Run must be a Run(cfg) step of Forms for that same outcome - all        *)
 (* succeed with equal canonical trees, or all fail.  Every form that was run must be Supported for the       *)
 (* input; handler logs must obey the chunk protocol; a run with a short-counting handler must fail.          *)
-(* Runs tagged ctrl = "attrsSorted" are control experiments (the reference form on the document with the    *)
-(* attributes of every element in name order): they are recorded, not judged, and only serve to NAME a       *)
-(* disagreement (KD=...) in the message; a named disagreement is still rejected.                             *)
+(* Runs with a tag (ctrl # "") are control experiments - a form run on a variant of the document or of the      *)
+(* stylesheet.  They are recorded, never judged, and only serve to NAME a disagreement (KD=...) in the message;  *)
+(* a named disagreement is still rejected:                                                                      *)
+(*   attrsSorted          reference form, document with the attributes of every element in name order            *)
+(*   xmlnsXml:<form>      <form> on the document with xmlns:xml declared explicitly on the document element      *)
+(*   noDtdRef, noDtd:<form>  reference form / <form> on the document without its DOCTYPE                         *)
+(*   noCdataElems:<form>  <form> with the stylesheet without cdata-section-elements                              *)
 EXTENDS Forms, TLC
 VARIABLES l, st, failed, done
 
 NoObs == [ok |-> FALSE, tree |-> <<>>]
 Init0 == [hasFeat |-> FALSE, feat |-> [utf16 |-> FALSE, srcbase |-> FALSE, method |-> "xml"],
-          known |-> FALSE, ref |-> NoObs, refcfg |-> "none", hasCtrl |-> FALSE, ctrl |-> NoObs]
+          known |-> FALSE, ref |-> NoObs, refcfg |-> "none", ctrls |-> {}]
 
 Accept(s) == [ok |-> TRUE, st |-> s, msg |-> ""]
 Reject(s, m) == [ok |-> FALSE, st |-> s, msg |-> m, cont |-> TRUE]
 
 CfgStr(c) == c.api \o "/" \o c.src \o "/" \o c.ss \o "/" \o c.out
 
-(* which part of Run(cfg, ..) failed, and whether the control experiment explains a tree difference *)
+Has(s, tag) == \E c \in s.ctrls : c.tag = tag
+Ctrl(s, tag) == CHOOSE c \in s.ctrls : c.tag = tag
+
+(* the control experiments that explain a tree difference exactly *)
+KD(s, cfg, obs) ==
+  LET m == s.feat.method
+      f == CfgStr(cfg)
+  IN IF cfg.src \in DomSrcs /\ Has(s, "attrsSorted") /\ Agree(m, Ctrl(s, "attrsSorted"), obs)
+       THEN " KD=attrOrderXercesDOM"             \* the DOM-backed form behaves as the native form does on the name-ordered document
+     ELSE IF cfg.src \in DomSrcs /\ Has(s, "xmlnsXml:" \o f) /\ Agree(m, Ctrl(s, "xmlnsXml:" \o f), s.ref)
+       THEN " KD=xmlNamespaceNodeXercesDOM"      \* with xmlns:xml declared in the document the same form agrees
+     ELSE IF cfg.src \in DomSrcs /\ Has(s, "noDtdRef") /\ Has(s, "noDtd:" \o f) /\ Agree(m, Ctrl(s, "noDtdRef"), Ctrl(s, "noDtd:" \o f))
+       THEN " KD=doctypeNodeXercesDOM"           \* without the DOCTYPE the same form agrees with the reference form
+     ELSE IF cfg.out = "sourceTree" /\ Has(s, "noCdataElems:" \o f) /\ Agree(m, Ctrl(s, "noCdataElems:" \o f), s.ref)
+       THEN " KD=sourceTreeTargetDropsCdataText" \* without cdata-section-elements the same form agrees
+     ELSE ""
+
+(* which part of Run(cfg, ..) failed *)
 Why(s, cfg, obs) ==
   IF cfg.out = "callback" /\ ~ChunkLogOK(obs.wlog, obs.nbytes, obs.ok) THEN "chunks"
   ELSE IF obs.ok # s.ref.ok THEN "status"
-  ELSE IF cfg.src \in DomSrcs /\ s.hasCtrl /\ Agree(s.feat.method, s.ctrl, obs) THEN "tree KD=attrOrderXercesDOM"
-  ELSE "tree"
+  ELSE "tree" \o KD(s, cfg, obs)
 
 C05Step(s, ev) ==
   IF ev.e = "Input" THEN Accept([s EXCEPT !.hasFeat = TRUE, !.feat = ev.feat])
@@ -38,7 +58,7 @@ C05Step(s, ev) ==
     IN
     IF ~s.hasFeat THEN Reject(s, "Run before Input")
     ELSE IF ~SupportedFor(cfg, s.feat) THEN Reject(s, "class=unsupported: a form outside Supported was run: " \o ToString(cfg))
-    ELSE IF ev.ctrl # "" THEN Accept([s EXCEPT !.hasCtrl = TRUE, !.ctrl = [ok |-> obs.ok, tree |-> obs.tree]])
+    ELSE IF ev.ctrl # "" THEN Accept([s EXCEPT !.ctrls = @ \cup {[tag |-> ev.ctrl, ok |-> obs.ok, tree |-> obs.tree]}])
     ELSE IF ev.short > 0
       THEN IF RunShort(cfg, s.feat, ev.short, obs) THEN Accept(s)
            ELSE Reject(s, "class=short: " \o CfgStr(cfg) \o ": handler reported a short count at call " \o ToString(ev.short)
